@@ -11,6 +11,7 @@ mod front;
 mod graph;
 mod host;
 mod lexer;
+mod monadic;
 mod numeric;
 mod roles;
 mod scope;
@@ -72,6 +73,7 @@ fn main() {
         | "replay-scope" => scope::replay_scope(&args[2], &args[3]),
         | "export-ir" => backend::export_ir(&args[2], &args[3], &args[4], args[5].parse().unwrap()),
         | "corpus-lower" => backend::corpus_lower(&args[2], &args[3]),
+        | "replay-monadic" => monadic::replay_monadic(&args[2], &args[3]),
         | "corpus-run" => {
             // zyconf corpus-run OUT MUTANTS_PER_FILE MAX_STEPS
             corpus::corpus_run(&args[2], args[3].parse().unwrap(), args[4].parse().unwrap());
